@@ -311,4 +311,75 @@ class TwoCompilers(object):
             shutil.rmtree(d, ignore_errors=True)
 
 
-FAMILIES = [Bfs(), Pairs(), BuildIndex(), TwoCompilers()]
+
+class CompileThenIndex(object):
+    name = 'compile-then-index'
+    describe = ('real modules compiled by MibCompiler (JSON) and indexed by buildIndex() on a scratch directory: a vendor subtree '
+                '{ enterprises N } (N = 4, 48, 4242) declared after / before nodes that are NOT below an enterprise arc but spell '
+                'alike - the enterprises node itself, { private 10 }, { private 14 }, { internet 41 } -, with / without '
+                'MODULE-IDENTITY and MODULE-COMPLIANCE: the module is listed under its enterprise, identity and compliance OIDs')
+    SIBLINGS = [None, 'enterprises', 'private10', 'private14', 'internet41']
+
+    def blocks(self, tier):
+        return [{'sib': i} for i in range(len(self.SIBLINGS))]
+
+    def cases(self, block, tier):
+        for n in (4, 48, 4242):
+            for first in (0, 1):
+                for ident in (0, 1):
+                    yield {'sib': block['sib'], 'n': n, 'sibling_first': first, 'ident': ident}
+
+    def run_case(self, case):
+        from pysmi.compiler import MibCompiler
+        from pysmi.writer.localfile import FileWriter
+        sib = self.SIBLINGS[case['sib']]
+        n = case['n']
+        imports = ['private', 'internet']
+        sibtext = {None: '', 'enterprises': 'enterprises OBJECT IDENTIFIER ::= { private 1 }\n',
+                   'private10': 'lookAlike OBJECT IDENTIFIER ::= { private 10 }\n',
+                   'private14': 'lookAlike OBJECT IDENTIFIER ::= { private 14 }\n',
+                   'internet41': 'lookAlike OBJECT IDENTIFIER ::= { internet 41 }\n'}[sib]
+        if sib != 'enterprises':
+            imports.append('enterprises')
+        vendor = 'vendorRoot OBJECT IDENTIFIER ::= { enterprises %d }\nvendorLeaf OBJECT IDENTIFIER ::= { vendorRoot 1 }\n' % n
+        ident = ''
+        if case['ident']:
+            imports += ['MODULE-IDENTITY']
+            ident = ('vendorModule MODULE-IDENTITY LAST-UPDATED "202001010000Z" ORGANIZATION "o" CONTACT-INFO "c" DESCRIPTION "d" '
+                     '::= { vendorRoot 9 }\n')
+        body = (sibtext + vendor + ident) if case['sibling_first'] else (vendor + ident + sibtext)
+        text = 'VENDOR-MIB DEFINITIONS ::= BEGIN\nIMPORTS %s FROM SNMPv2-SMI;\n%sEND\n' % (', '.join(imports), body)
+        base = os.environ.get('VERIF_TMP') or ('/dev/shm' if os.path.isdir('/dev/shm') else None)
+        d = tempfile.mkdtemp(prefix='mcC18', dir=base)
+        try:
+            comp = MibCompiler(env.fresh_parser('smiV2'), env.JsonCodeGen(), FileWriter(d).setOptions(suffix='.json'))
+            texts = env.base_texts()
+            texts['VENDOR-MIB'] = text
+            comp.addSources(env.DictReader(texts))
+            comp.addSearchers(env.StubSearcher(*env.BASE_NAMES))
+            res = comp.compile('VENDOR-MIB')
+            sig = 'C18|compile-then-index|sibling=%s' % sib
+            if res.get('VENDOR-MIB') != 'compiled':
+                return 'notcompiled', [('%s|not-compiled' % sig, '%r\n%s' % (getattr(res.get('VENDOR-MIB'), 'error', None), text))], 1
+            comp.buildIndex(res)
+            with open(os.path.join(d, 'index.json')) as f:
+                doc = json.load(f)
+            vs = []
+            ent = P.rsplit('.', 1)[0] + '.%d' % n
+            if 'VENDOR-MIB' not in (doc.get('enterprise', {}).get(ent) or []):
+                vs.append(('%s|not-listed-under-its-enterprise' % sig, 'enterprise section %r, expected VENDOR-MIB under %s\n%s' % (
+                    doc.get('enterprise'), ent, text)))
+            for k, mods in (doc.get('enterprise') or {}).items():
+                if 'VENDOR-MIB' in mods and k != ent:
+                    vs.append(('%s|listed-under-a-non-enterprise-oid' % sig, '%s: %r' % (k, mods)))
+            if case['ident'] and 'VENDOR-MIB' not in (doc.get('identity', {}).get(ent + '.9') or []):
+                vs.append(('%s|not-listed-under-its-identity' % sig, repr(doc.get('identity'))))
+            oids = doc.get('oids', {})
+            for o in (ent, ent + '.1'):
+                if not any(is_prefix(k, o) and 'VENDOR-MIB' in v for k, v in oids.items()):
+                    vs.append(('%s|oid-not-covered' % sig, '%s not covered by %r' % (o, oids)))
+            return json.dumps(doc.get('enterprise'), sort_keys=True), vs, 2
+        finally:
+            shutil.rmtree(d, ignore_errors=True)
+
+FAMILIES = [Bfs(), Pairs(), BuildIndex(), TwoCompilers(), CompileThenIndex()]
